@@ -57,7 +57,31 @@ def _install():
     _STATE["installed"] = True
 
 
+PRIMS = ("int", "float", "Decimal", "bool", "str", "datetime", "date", "time", "timedelta", "UUID")
+
+
+def hostile_values():
+    """constant-size scalars of rarely used classes; built inside the worker"""
+    from decimal import Decimal
+    return {
+        "dec-inf": Decimal("Infinity"), "dec-neg-inf": Decimal("-Infinity"), "dec-nan": Decimal("NaN"),
+        "dec-snan": Decimal("sNaN"), "dec-big": Decimal("1e60"), "dec-huge-exp": Decimal("1e999999"),
+        "dec-tiny-exp": Decimal("1e-999999"), "dec-fin": Decimal("1700000000.5"),
+        "float-inf": float("inf"), "float-neg-inf": float("-inf"), "float-nan": float("nan"), "float-big": 1e308,
+        "int-huge": 10 ** 400, "int-neg-huge": -(10 ** 400), "int-big": 2 ** 70,
+        "str-huge-exp": "1e999999", "str-inf": "-Infinity", "str-nan": "nan", "str-long-digits": "9" * 5000,
+        "str-empty": "", "bytes": b"\xff\xfe", "true": True, "none": None, "int-0": 0,
+    }
+
+
+HOSTILE_NAMES = ("dec-inf", "dec-neg-inf", "dec-nan", "dec-snan", "dec-big", "dec-huge-exp", "dec-tiny-exp", "dec-fin",
+                 "float-inf", "float-neg-inf", "float-nan", "float-big", "int-huge", "int-neg-huge", "int-big",
+                 "str-huge-exp", "str-inf", "str-nan", "str-long-digits", "str-empty", "bytes", "true", "none", "int-0")
+
+
 def ty_src(t, pfx):
+    if isinstance(t, str) and t.startswith("prim:"):
+        return t[5:]
     if t == "leaf":
         return "Leaf"
     if t == "none":
@@ -69,14 +93,15 @@ def ty_src(t, pfx):
     if "tuple" in t:
         return "Tuple[%s, ...]" % ty_src(t["tuple"], pfx)
     if "dict" in t:
-        return "Dict[%s, %s]" % (t.get("key", "str"), ty_src(t["dict"], pfx))
+        return "Dict[%s, %s]" % ({"any": "Any"}.get(t.get("key", "str"), t.get("key", "str")), ty_src(t["dict"], pfx))
     if "union" in t:
         return "Union[%s]" % ", ".join(ty_src(a, pfx) for a in t["union"])
     raise ValueError(t)
 
 
 def class_source(classes, pfx):
-    src = ["from typing import Optional, List, Dict, Tuple, Union", "from utype import Schema, Options",
+    src = ["from typing import Optional, List, Dict, Tuple, Union, Any", "from utype import Schema, Options, DataClass",
+           "from datetime import datetime, date, time, timedelta", "from decimal import Decimal", "from uuid import UUID",
            # a leaf class of this declaration's own: typing caches `List[Union[A, B]]` by *set* of members, so a
            # shared leaf class would let another declaration's member order leak into this one
            "class Leaf(BaseLeaf):", "    __slots__ = ()"]
@@ -93,11 +118,17 @@ def class_source(classes, pfx):
             args.append("override=True")
         if o.get("dfs"):
             args.append("data_first_search=True")
-        src.append("class %s%d(Schema):" % (pfx, k))
+        own = bool(o.get("own_init"))
+        src.append("class %s%d(%s):" % (pfx, k, "DataClass" if own else "Schema"))
         if args:
             src.append("    __options__ = Options(%s)" % ", ".join(args))
         for fname, t in c["fields"]:
             src.append("    %s: %s = None" % (fname, ty_src(t, pfx)))
+        if own:
+            # a data class with a user-written __init__: its parameters are parsed by the wrapped function
+            src.append("    def __init__(self, %s):" % ", ".join("%s: %s = None" % (f, ty_src(t, pfx)) for f, t in c["fields"]))
+            for fname, _ in c["fields"]:
+                src.append("        self.%s = %s" % (fname, fname))
         if not c["fields"] and not args:
             src.append("    pass")
     return "\n".join(src) + "\n"
@@ -132,6 +163,8 @@ def build_value(v, stack=None):
         return None
     if "t" in v:
         return v["t"]
+    if "h" in v:
+        return hostile_values()[v["h"]]
     if "ref" in v:
         return stack[-1 - v["ref"]]
     if "l" in v:
@@ -159,7 +192,7 @@ def build_value(v, stack=None):
 
 def norm(v):
     """tuples convert like lists everywhere in this fragment (same `multi` group): the model sees a list"""
-    if v is None or "t" in v or "ref" in v:
+    if v is None or "t" in v or "ref" in v or "h" in v:
         return v
     if "tu" in v:
         return {"l": [norm(x) for x in v["tu"]]}
@@ -177,12 +210,15 @@ def canon(r, classes_py):
     if isinstance(r, Schema):
         k = classes_py.index(type(r))
         return {"k": k, "f": [[name, canon(r.get(name), classes_py)] for name in type(r).__parser__.fields]}
+    if type(r) in classes_py:
+        return {"k": classes_py.index(type(r)),
+                "f": [[name, canon(getattr(r, name, None), classes_py)] for name in type(r).__parser__.fields]}
     if isinstance(r, list):
         return {"l": [canon(x, classes_py) for x in r]}
     if isinstance(r, tuple):
         return {"tu": [canon(x, classes_py) for x in r]}
     if isinstance(r, dict):
-        return {"m": [[k, canon(x, classes_py)] for k, x in r.items()]}
+        return {"m": [[k if isinstance(k, (str, int, bool, type(None))) else repr(k), canon(x, classes_py)] for k, x in r.items()]}
     return {"other": type(r).__name__}
 
 
@@ -426,7 +462,7 @@ def unfold(v, budget, stack=()):
 
 
 def vsize(v):
-    if v is None or "t" in v or "ref" in v:
+    if v is None or "t" in v or "ref" in v or "h" in v:
         return 1
     n = 1
     for x in (v["l"] if "l" in v else [y for _, y in v["d"]]):
@@ -436,7 +472,7 @@ def vsize(v):
 
 def vdepth(v):
     """container nesting depth of the input (an upper bound of its data-class nesting depth)"""
-    if v is None or "t" in v or "ref" in v:
+    if v is None or "t" in v or "ref" in v or "h" in v:
         return 0
     d = 0
     for x in (v["l"] if "l" in v else [y for _, y in v["d"]]):
@@ -446,7 +482,7 @@ def vdepth(v):
 
 def dict_nesting(v):
     """mapping nesting depth of the input"""
-    if v is None or "t" in v or "ref" in v:
+    if v is None or "t" in v or "ref" in v or "h" in v:
         return 0
     if "l" in v:
         return max([dict_nesting(x) for x in v["l"]] or [0])
@@ -460,6 +496,8 @@ def ty_weight(no_loss, no_cast, t, data_weight=1):
         return 1
     if t == "none":
         return 0
+    if isinstance(t, str):
+        return 1
     if "data" in t:
         return data_weight
     for key in ("list", "tuple", "dict"):
@@ -483,7 +521,7 @@ def decl_weight(classes):
 
 
 def ty_height(t):
-    if t in ("leaf", "none") or "data" in t:
+    if isinstance(t, str) or "data" in t:
         return 0
     for key in ("list", "tuple", "dict"):
         if key in t:
@@ -503,7 +541,7 @@ def cost_bound(classes, value):
 
 
 def data_under_union(t, under=False):
-    if t in ("leaf", "none"):
+    if isinstance(t, str):
         return False
     if "data" in t:
         return under
@@ -520,13 +558,13 @@ def decl_data_under_union(classes):
 def union_ambiguous(t):
     """a union with two alternatives that can both read a container (the limit may then legitimately
     change *which* alternative reads the value)"""
-    if t in ("leaf", "none") or "data" in t:
+    if isinstance(t, str) or "data" in t:
         return False
     for key in ("list", "tuple", "dict"):
         if key in t:
             return union_ambiguous(t[key])
     args = t["union"]
-    if sum(1 for a in args if a not in ("leaf", "none")) > 1:
+    if sum(1 for a in args if not isinstance(a, str)) > 1:
         return True
     return any(union_ambiguous(a) for a in args)
 
@@ -578,7 +616,7 @@ def dict_candidates(v, depth=3):
 def _modelled(classes, t, v, memo):
     if v is not None and "ref" in v:
         return True
-    if t in ("leaf", "none"):
+    if isinstance(t, str):
         return True
     if "data" in t:
         if v is None or "t" in v:
@@ -612,7 +650,7 @@ def _modelled(classes, t, v, memo):
         want = int if t.get("key") == "int" else str
         for d in dict_candidates(v):
             keys = [k for k, _ in d["d"]]
-            if any(type(k) is not want for k in keys):
+            if t.get("key") != "any" and any(type(k) is not want for k in keys):
                 return False
             for _, x in d["d"]:
                 if not modelled(classes, t["dict"], x, memo):
@@ -780,7 +818,7 @@ def canon_unions(classes):
     first = {}
 
     def go(t):
-        if t in ("leaf", "none") or "data" in t:
+        if isinstance(t, str) or "data" in t:
             return t
         for key in ("list", "tuple", "dict"):
             if key in t:
@@ -1074,6 +1112,34 @@ def mixed_limit_case(pos, root_md, inner_md, k, override=False, cyc=False):
             "fam": "mixed-limits/" + ("override/" if override else "") + pos}
 
 
+def hostile_case(prim, where, h):
+    """a constant-size scalar of a rarely used class given where a built-in type is declared"""
+    t = "prim:" + prim
+    ty = {"field": t, "list-item": {"list": t}, "dict-value": {"dict": t}, "optional": {"union": [t, "none"]}}[where]
+    val = {"h": h}
+    v = {"field": val, "list-item": {"l": [{"h": "int-0"}, val]}, "dict-value": {"d": [["a", val]]}, "optional": val}[where]
+    return {"classes": [{"opts": {}, "fields": [["x", ty]]}], "root": 0, "entry": "init", "value": {"d": [["x", v]]},
+            "hostile": True, "fam": "hostile/" + prim}
+
+
+def own_init_case(pos, k, md, cyc=False):
+    """a recursive data class with a user-written __init__ (its parameters are parsed by the wrapped function)"""
+    case = chain_case(pos, k, md, cyc=cyc)
+    case["classes"] = [dict(c, opts=dict(c["opts"], own_init=True)) for c in case["classes"]]
+    case["fam"] = ("cyc/" if cyc else "") + "own-init/" + pos
+    return case
+
+
+def falsy_key_case(key, k, md, keyty="any"):
+    """the nested value under a mapping key that looks absent / false: None, False, 0, ''"""
+    D = {"data": 0}
+    classes = [{"opts": {} if md is None else {"max_depth": md}, "fields": [["v", "leaf"], ["nx", {"dict": D, "key": keyty}]]}]
+    v = {"d": [["v", {"t": 0}]]}
+    for _ in range(k - 1):
+        v = {"d": [["v", {"t": 0}], ["nx", {"d": [[key, v]]}]]}
+    return {"classes": classes, "root": 0, "entry": "init", "value": v, "fam": "falsy-key/" + repr(key)}
+
+
 def exp_case(k, pos="optional", md=None):
     """single invalid leaf at the bottom of k levels"""
     return dict(chain_case(pos, k, md, leaf_kind=BAD), fam="badleaf/" + pos)
@@ -1235,6 +1301,9 @@ class C18(Check):
             "(c) cyclic inputs — through data-class fields, through single-item lists / tuples standing for a mapping, and built "
             "from lists / tuples alone (x=[x], x=[(x,)], x=[[x]]) at every position —, (d) a single invalid leaf below k levels, "
             "(e) JSON-like unions nested through containers without a data class, depth 1..12, valid / lossy / invalid leaf; "
+            "(g) mapping keys None / False / 0 / '' under Dict[Any, .], data classes with a user-written __init__, and constant-size "
+            "hostile scalars (non-finite / huge-exponent Decimals and floats, huge ints, exponent strings) against every built-in leaf "
+            "type (a killed case = unbounded cost); "
             "entry points K(**d), K.__from__, type_transform; (f) second steps after the parse: setattr / setitem / update / |= on the "
             "n-th instance of the parsed tree at every level (also on the unlimited twin and on a directly constructed instance) "
             "and re-parse of sub-values taken out of the tree. "
@@ -1260,6 +1329,14 @@ class C18(Check):
             out += [chain_case(p, 1, md, cyc=True) for p in POS_NAMES if p != "wrapped-scalar" for md in (1, 3)]
             out += [exp_case(k) for k in range(1, 8)]
             out += [exp_case(k, "list-opt-0") for k in (2, 4, 6)]
+            # mapping keys that look absent / false; classes with a user-written __init__; hostile scalars for built-in leaf types
+            out += [falsy_key_case(key, k, md) for key in (None, False, 0, "", "a", 7) for md in (2, 3) for k in (md - 1, md, md + 1)]
+            out += [own_init_case(p, k, md) for p in ("direct", "optional", "list-0", "dict-key", "union-mid") for md in (1, 2, 3)
+                    for k in (md, md + 1, md + 3)]
+            out += [own_init_case(p, 1, 2, cyc=True) for p in ("direct", "list-0")]
+            out += [hostile_case(prim, where, h) for prim in ("datetime", "date", "timedelta", "time") for h in HOSTILE_NAMES
+                    for where in ("field", "list-item")]
+            out += [hostile_case(prim, "field", h) for prim in ("int", "float", "Decimal", "bool", "str", "UUID") for h in HOSTILE_NAMES]
             # a limited root over a nested class with its own / no limit (known finding limit-not-inherited), and with override
             out += [mixed_limit_case(p, rmd, imd, k, ov) for p in ("direct", "optional", "list-0", "dict-key")
                     for rmd, imd in ((1, None), (2, None), (2, 4), (3, 1)) for k in (1, 2, 4) for ov in (False, True)]
@@ -1284,6 +1361,12 @@ class C18(Check):
                     for m, e in ((1, "init"), (2, "transform"), (3, "init"))]
             out += [wrapped_cycle_case(p, md, tw) for p in POS_NAMES for md in (1, 3) for tw in (False, True)]
         elif tier == "thorough":
+            out += [falsy_key_case(key, k, md, kt) for key in (None, False, 0, "", "a", 7) for md in (1, 2, 3, 4)
+                    for k in range(1, md + 3) for kt in ("any",)]
+            out += [own_init_case(p, k, md) for p in POS_NAMES for md in (1, 2, 3, 4) for k in range(1, md + 4)]
+            out += [own_init_case(p, 1, md, cyc=True) for p in POS_NAMES if p != "wrapped-scalar" for md in (1, 3)]
+            out += [hostile_case(prim, where, h) for prim in PRIMS for h in HOSTILE_NAMES
+                    for where in ("field", "list-item", "dict-value", "optional")]
             out += [mixed_limit_case(p, rmd, imd, k, ov) for p in POS_NAMES for rmd in (1, 2, 3) for imd in (None, 1, 2, 4)
                     for k in (1, 2, 3, 5) for ov in (False, True)]
             out += [mixed_limit_case(p, 3, None, 1, cyc=True) for p in ("optional", "list-opt-0")]
@@ -1337,6 +1420,8 @@ class C18(Check):
             return False        # K.__from__(sequence) skips transform_dataclass: not modelled
         if case.get("fam") == "cyc/unlimited-below-limited-root":
             return False        # a cycle through a class without limit is not a finite unfolding: the model cannot represent it
+        if case.get("hostile") or any(c.get("opts", {}).get("own_init") for c in case["classes"]):
+            return False        # built-in leaf types with hostile scalars; classes with a user-written __init__: not modelled
         if has_override(case["classes"]):
             return False        # Options(override=True): the root's options replace the nested classes' own: not modelled
         return modelled(case["classes"], {"data": case["root"]}, v)
@@ -1390,12 +1475,14 @@ class C18(Check):
     # ---- the property, on what the implementation returned ----
     def spec(self, case, io, mo):
         if isinstance(io, dict) and ("hang" in io or "crash" in io):
-            what = "does not terminate (killed after %ds)" % int(self.case_timeout) if "hang" in io else "kills the interpreter"
+            what = "does not end (killed after %ds)" % int(self.case_timeout) if "hang" in io else "kills the interpreter"
             if case.get("cyc"):
                 return f"cyclic input not rejected: the parse {what}"
             return f"cost: the parse {what} on a finite input of size {vsize(norm(case['value']))}"
         if not isinstance(io, dict) or "lim" not in io:
             return f"no verdict from the implementation: {io}"
+        if case.get("hostile"):
+            return None         # constant-size input of a built-in leaf type: the demand is that the conversion ends (above)
         classes, lim, unl = spec_classes(case["classes"], case["root"]), io["lim"], io.get("unl")
         # -- depth limit exact --
         if "ok" in lim and not res_within(classes, lim["ok"]):
